@@ -180,3 +180,10 @@ PROPS["C16"] = dict(explanation="Bounded symbolic execution of the create/write,
     bounds=["symbol in {AAPL, '..', '.', '', '../..', 'a/../..', 'AAPL/..'}, timeframe in {1D, '..'}, attribute group in {OHLCV, '..', '../../X', ''}, optionally an extra '/../../../escape' tail: 112 keys", "operations: write (creating the bucket), query, destroy"],
     outside=["other characters (NUL, backslash on Windows, very long names)", "the gRPC/JSON-RPC front ends in front of these calls", "symbolic links inside the root"],
     stubs=FS_STUBS, assumptions=COMMON_ASSUME)
+
+
+PROPS["C15"] = dict(explanation="Bounded symbolic execution of the real NewTimeBucketInfo, Header.Load, WriteHeader (struct image through unsafe.Pointer), FileSize/Truncate and, on a fresh TimeBucketInfo as the catalog builds at start-up, the lazy readHeader/load path (header bytes read back from the file-system model, bytes.Trim of the name fields). The reloaded schema must equal the created one: column count, names (symbolic printable characters), types, timeframe, record type, record lengths, year.",
+    runs=[dict(pkg="utils/io", files=["c15_header.go"], entries=["VerifC15HeaderRoundTrip"], must_reach=["entered", "reloaded"], opts=dict(timeout=30))],
+    bounds=["1..2 columns after Epoch; name length in {1, 32, 33} (thorough +{5, 31, 40}), characters arbitrary printable ASCII (33..126), names distinct and not 'Epoch'", "column type in {FLOAT32, INT64, UINT8, STRING16} (thorough: all 12 element types)", "timeframes 1Sec, 1Min, 1D (thorough: all of utils.Timeframes); fixed and variable record type"],
+    outside=["names containing NUL or non-printable bytes (bytes.Trim strips NULs)", "more than 2 columns (the 1024-column format limit is not exercised)", "data never overlaps the header: see C30 (slot-after-header, known finding for 1D index 0); writes after creation", "known finding region: a column name longer than 32 bytes is silently truncated instead of being rejected"],
+    stubs=FS_STUBS, assumptions=COMMON_ASSUME)
